@@ -26,18 +26,20 @@ def run_unit(unit_dir: str, repo_root: str = '/repo', tier: str = 'quick', keep:
     if cfg.get('inside'):
         return _run_inside(unit, unit_dir, cfg, res, repo_root, tier, keep, t0)
     crate = os.path.join(VERIF_ROOT, 'replay-drivers', cfg['crate'])
-    target = os.path.join(WORK_ROOT, f'native-target-{os.getpid()}')
+    # one build directory and one private copy of the driver crate per (process, unit): the units of a property run
+    # concurrently, and two checks may run at the same time
+    tag = f'{os.getpid()}-{unit}'
+    target = os.path.join(WORK_ROOT, f'native-target-{tag}')
     os.makedirs(WORK_ROOT, exist_ok=True)
-    # the driver links /repo by absolute path; for another tree, build a patched copy of the driver crate
-    crate_used = crate
-    tmp_crate = None
+    # the driver links /repo by absolute path; for another tree the copy of the driver crate is re-pointed
+    tmp_crate = os.path.join(WORK_ROOT, f'native-crate-{tag}')
+    crate_used = tmp_crate
     try:
+        shutil.rmtree(tmp_crate, ignore_errors=True)
+        shutil.copytree(crate, tmp_crate, ignore=shutil.ignore_patterns('target', 'Cargo.lock'))
         if os.path.abspath(repo_root) != '/repo':
-            tmp_crate = os.path.join(WORK_ROOT, f'native-crate-{os.getpid()}')
-            shutil.copytree(crate, tmp_crate)
             ct = open(os.path.join(tmp_crate, 'Cargo.toml')).read().replace('/repo/', repo_root.rstrip('/') + '/')
             open(os.path.join(tmp_crate, 'Cargo.toml'), 'w').write(ct)
-            crate_used = tmp_crate
         shutil.copy(os.path.join(repo_root, 'Cargo.lock'), os.path.join(crate_used, 'Cargo.lock'))
         env = dict(os.environ, CARGO_TARGET_DIR=target, CARGO_NET_OFFLINE='true')
         b = subprocess.run(['cargo', 'build', '--offline', '--bin', cfg['bin']], cwd=crate_used, env=env, capture_output=True, text=True, timeout=1800)
@@ -90,13 +92,8 @@ def run_unit(unit_dir: str, repo_root: str = '/repo', tier: str = 'quick', keep:
         return res
     finally:
         res['wall_s'] = round(time.time() - t0, 2)
-        try:
-            os.remove(os.path.join(crate, 'Cargo.lock'))
-        except OSError:
-            pass
         shutil.rmtree(target, ignore_errors=True)
-        if tmp_crate:
-            shutil.rmtree(tmp_crate, ignore_errors=True)
+        shutil.rmtree(tmp_crate, ignore_errors=True)
 
 
 INSIDE_TARGET = os.path.join(VERIF_ROOT, 'cache', 'inside-target')
@@ -107,8 +104,15 @@ def _run_inside(unit, unit_dir, cfg, res, repo_root, tier, keep, t0):
     same device as the Kani engine), so that it can reach private modules; it runs under `cargo test` of the real crate
     (dev profile: the repository's debug assertions are active) and prints the same one-line JSON."""
     import re
-    work = os.path.join(WORK_ROOT, f'nwork-{os.getpid()}')
+    import fcntl
+    work = os.path.join(WORK_ROOT, f'nwork-{os.getpid()}-{unit}')
     os.makedirs(WORK_ROOT, exist_ok=True)
+    os.makedirs(INSIDE_TARGET, exist_ok=True)
+    # inside units share one cache of third-party build artefacts and some bind e2e ports: one at a time, across
+    # threads and across concurrently running checks
+    lock = open(os.path.join(WORK_ROOT, 'inside.lock'), 'w')
+    fcntl.flock(lock, fcntl.LOCK_EX)
+    t0 = time.time()
     try:
         r = subprocess.run(['rsync', '-a', '--delete', '--exclude', 'target', '--exclude', '.git', repo_root.rstrip('/') + '/', work + '/'],
                            capture_output=True, text=True)
@@ -187,3 +191,5 @@ def _run_inside(unit, unit_dir, cfg, res, repo_root, tier, keep, t0):
                         dirs.remove(d)
         except Exception:
             pass
+        fcntl.flock(lock, fcntl.LOCK_UN)
+        lock.close()
